@@ -8,6 +8,30 @@ fn verif_replay() {
     let path = match std::env::var("VERIF_REPLAY") { Ok(p) => p, Err(_) => return };
     let case: serde_json::Value = serde_json::from_str(&std::fs::read_to_string(path).unwrap()).unwrap();
     let a = case["args"].clone();
+    if case["driver"].as_str() == Some("error_reply_lock") {
+        // the failure reply is sent to a client that then just stays connected: is the connection's lock free again?
+        let version = a["version"].as_u64().unwrap_or(5) as u8;
+        let rt = tokio::runtime::Builder::new_current_thread().enable_all().build().unwrap();
+        let out = rt.block_on(async move {
+            use tokio::io::AsyncReadExt;
+            let (mut peer, ours) = tokio::io::duplex(4096);
+            let state: Arc<GlobalState> = Default::default();
+            let ctx = state.contexts.create_context("l".into(), "127.0.0.1:1".parse().unwrap()).await;
+            ctx.write().await.set_client_stream(make_buffered_stream(ours)).set_callback(Callback { version, listen_addr: None });
+            let c2 = ctx.clone();
+            let task = tokio::spawn(async move { c2.on_error(err_msg("refused")).await });
+            let mut buf = [0u8; 64];
+            let n = tokio::time::timeout(std::time::Duration::from_millis(500), peer.read(&mut buf)).await.ok().and_then(|r| r.ok()).unwrap_or(0);
+            // the client keeps its connection open and sends nothing
+            let free = tokio::time::timeout(std::time::Duration::from_millis(1000), ctx.read()).await.is_ok();
+            let done = task.is_finished();
+            task.abort();
+            drop(peer);
+            serde_json::json!({"panicked": false, "reply_len": n, "connection_lock_free_after_reply": free, "callback_returned": done})
+        });
+        println!("VERIF-OUTCOME {}", out);
+        return;
+    }
     let cmd = a["cmd"].as_u64().unwrap_or(1) as u8;
     let allow_udp = a["allow_udp"].as_bool().unwrap_or(true);
     // creds: "none" (offers only NO-AUTH), "wrong" (user/pass not in the user list), "right"
